@@ -5,6 +5,8 @@ package main
 import (
 	"fmt"
 	"go/types"
+	"net/netip"
+	"regexp"
 	"strconv"
 
 	"golang.org/x/tools/go/ssa"
@@ -246,10 +248,34 @@ func vfIntrinsic(fn *ssa.Function, base string) extFn {
 			}
 			return int32(-1)
 		}
+	case "vfValidPrefix4", "vfValidPrefix6":
+		return func(fr *frame, a []value) value {
+			s, ok := a[0].(string)
+			if !ok {
+				return true // symbolic prefixes are rendered as valid prefixes of their kind
+			}
+			if base == "vfValidPrefix4" {
+				return validPrefix4(s)
+			}
+			return validPrefix6(s)
+		}
+	case "vfModelUnsupported":
+		return func(fr *frame, a []value) value {
+			fr.in.unsupported("model does not cover: %v", a[0])
+			return nil
+		}
 	case "vfErrIsOpaque":
 		return func(fr *frame, a []value) value { return true }
 	}
 	return nil
+}
+
+var re4 = regexp.MustCompile(`^(([0-9]|[1-9][0-9]|1[0-9][0-9]|2[0-4][0-9]|25[0-5])\.){3}([0-9]|[1-9][0-9]|1[0-9][0-9]|2[0-4][0-9]|25[0-5])/([0-9]|[1-2][0-9]|3[0-2])$`)
+
+func validPrefix4(s string) bool { return re4.MatchString(s) }
+func validPrefix6(s string) bool {
+	p, err := netip.ParsePrefix(s)
+	return err == nil && p.Addr().Is6() && !p.Addr().Is4In6() && p.Addr().Zone() == ""
 }
 
 func mustDerefNamed(t types.Type) (*types.Named, bool) {
